@@ -34,12 +34,12 @@ pub open spec fn cur_next(it: &ResponseIterator, mid: ParsedPacket) -> int {
 }
 pub open spec fn mut_ready(it: &ResponseIterator) -> bool {
     it.wf() && it.rr_iterator.offset.is_some() && it.pk().len() <= 0xffff
-    && (if it.pp().maybe_compressed { wf_packet(it.pk()) ==> unc_keeps_edns(it.pp()) && uncompress_spec(it.pk()).len() <= 0xffff } else { pf_packet(it.pk()) })
+    && (if it.pp().maybe_compressed { wf_packet(it.pk()) ==> uncompress_spec(it.pk()).len() <= 0xffff } else { pf_packet(it.pk()) })
 }
 pub proof fn lemma_resp_pre(it: &ResponseIterator)
     requires mut_ready(it), it.pp().maybe_compressed ==> wf_packet(it.pk())
     ensures ({ let pp = it.pp(); let p = it.pk(); let off = it.rr_iterator.offset.unwrap() as int; let o = cur_o(it); let si = sec_idx(it.rr_iterator.section); let k = it.visited() - 1;
-        pp.packet.is_some() && 1 <= si <= 3 && sec_of_idx(si) == it.rr_iterator.section && 0 <= k && it.rr_iterator.rrs_left == it.count() - k - 1
+        pp.packet.is_some() && unc_keeps_edns(pp) && 1 <= si <= 3 && sec_of_idx(si) == it.rr_iterator.section && 0 <= k && it.rr_iterator.rrs_left == it.count() - k - 1
         && 0 <= it.rr_iterator.name_end && it.rr_iterator.name_end + 2 <= p.len()
         && section_at(pp, it.rr_iterator.offset) == it.rr_iterator.section && !opt_lt(it.rr_iterator.offset, pp.offset_question)
         && (pp.maybe_compressed ==> bmap(p, off).is_some() && 0 <= bmap(p, off).unwrap() <= uncompress_spec(p).len() && rec_ok(uncompress_spec(p), bmap(p, off).unwrap()))
@@ -56,6 +56,7 @@ pub proof fn lemma_resp_pre(it: &ResponseIterator)
     let pp = it.pp(); let p = it.pk(); let off = it.rr_iterator.offset.unwrap() as int; let si = sec_idx(it.rr_iterator.section); let k = it.visited() - 1; let o = cur_o(it);
     it.lemma_section();
     it.lemma_wf_facts();
+    lemma_unc_keeps_edns(pp);
     assert(wf_bytes(p)) by { reveal(ParsedPacket::wf); }
     lemma_rec_bounds(p, off);
     if pp.maybe_compressed {
@@ -219,7 +220,7 @@ fn client_insert(pp: &mut ParsedPacket, section: Section, rr: RR) -> (r: Result<
 // C11: a walk that deletes every record it is given terminates, and the emptied section reads as absent (compressed or pointer-free packet)
 fn client_delete_all_answers(pp: &mut ParsedPacket) -> (n: usize)
     requires old(pp).wf(), old(pp).bytes().len() <= 0xffff,
-        (if old(pp).maybe_compressed { wf_packet(old(pp).bytes()) && unc_keeps_edns(*old(pp)) && uncompress_spec(old(pp).bytes()).len() <= 0xffff } else { pf_packet(old(pp).bytes()) }),
+        (if old(pp).maybe_compressed { wf_packet(old(pp).bytes()) && uncompress_spec(old(pp).bytes()).len() <= 0xffff } else { pf_packet(old(pp).bytes()) }),
     ensures final(pp).wf(), n == sec_count(old(pp).bytes(), Section::Answer),
         n > 0 ==> pf_packet(final(pp).bytes()) && !final(pp).maybe_compressed,
         sec_count(final(pp).bytes(), Section::Answer) == 0, final(pp).offset_answers.is_none(),
